@@ -695,8 +695,15 @@ def language_traps(ctx, fns, clause):
                 n["negzero"] = n.get("negzero", 0) + 1
                 lb = lower_bound(ctx.repo, f, lo.operand, sub)
                 ok = lb is not None and lb >= 1
+                if not ok:
+                    from ..facts import facts_at
+                    x_ = norm(lo.operand)
+                    nz = {("F", f"{x_} == 0"), ("T", f"{x_} != 0"), ("T", f"{x_} < 0"), ("T", f"{x_} > 0"), ("T", f"{x_} >= 1"),
+                          ("T", f"{x_} <= -1"), ("F", f"not {x_}"), ("T", x_)}
+                    if nz & set(facts_at(f, sub)):
+                        ok, lb = True, "nonzero"
                 ctx.ob("TRAP-negzero", f, norm(sub)[:60], sub, ok,
-                       f"{norm(lo.operand)} >= {lb} here" if ok else
+                       f"{norm(lo.operand)} is {'>= ' + str(lb) if lb != 'nonzero' else 'not 0'} here" if ok else
                        f"{norm(sub)[:50]} takes `the last {norm(lo.operand)}` elements, but -0 is 0: when {norm(lo.operand)} is 0 the slice is the "
                        f"whole sequence, not an empty one (no test on this path excludes 0)", clause=clause)
     # ---- TRAP-getter: operator.itemgetter(*names) returns a bare element, not a 1-tuple, when there is exactly one name
